@@ -78,7 +78,19 @@ def main(rep, tier, only):
                 if e[0].startswith("fcppt::operator++") or e[0].startswith("fcppt::operator--"):
                     effects.append(("++" if "++" in e[0] else "--", sx.show(e[1][0])))
                 elif e[0] == "write":
-                    effects.append(("=", sx.show(e[1][0]), sx.show(e[1][1])))
+                    tgt_, val_ = e[1][0], e[1][1]
+                    inc = None
+                    if isinstance(val_, tuple) and val_ and val_[0] == "ev":
+                        e2 = p.events[val_[1] - 1]
+                        if e2[0].split("<")[0] in ("fcppt::operator+", "fcppt::operator-") and len(e2[1]) == 2:
+                            a_ = [sx.show(x_) for x_ in e2[1]]
+                            one = "fcppt::strong_typedef{1}"
+                            if a_ == [sx.show(tgt_), one] or (a_ == [one, sx.show(tgt_)] and e2[0].split("<")[0].endswith("+")):
+                                inc = "++" if e2[0].split("<")[0].endswith("+") else "--"
+                    if inc is not None:
+                        effects.append((inc, sx.show(tgt_)))      # x = x + 1 is ++x
+                    else:
+                        effects.append(("=", sx.show(tgt_), sx.show(val_)))
             row = "none" if hv and hv[0] is False else ("newline" if eq and eq[0] else "other")
             rows[row] = (effects, sx.show(p.outcome[1]) if p.outcome[0] == "return" else p.outcome[0], i_bad, i_get)
         want = {"none": [], "newline": [("++", "line(this.location_)"), ("=", "column(this.location_)", "fcppt::strong_typedef{1}")],
